@@ -31,6 +31,9 @@ abbrev Methods := Table FrameKey Unit      -- presence of a definition under a k
 
 def has (tbl : Methods) (k : FrameKey) : Bool := (lookup tbl k).isSome
 
+/-- `bc`: the short names of configured classes (any frame) that the program has not defined at top level
+itself (`BuiltinClasses` minus the top-level entries of `DefinedClassTable`); an include/extend edge to such a
+name without a frame is looked up in frame `Builtin`. -/
 def builtinFrame (bc : List Str) (n : Node) : Str :=
   if n.frame == [] && bc.contains n.cls then "Builtin".toList else n.frame
 
